@@ -639,6 +639,9 @@ class Prop(Check):
         "RrelSyntax.C12_parse_range",
         "RrelSyntax.C12_parsed_partial",
         "RrelSyntax.C12_wf_in_range",
+        "RrelSyntax.C12_print_injective",
+        "RrelSyntax.C12_print_normal_form_partial",
+        "RrelSyntax.C12_same_print_iff_partial",
         "RrelSyntax.C12_trailing_backslash_false",
         "RrelSyntax.C12_pinned_flags_false",
         "RrelSyntax.C12_pinned_quote_false",
